@@ -182,7 +182,9 @@ def external(smt2, tool, timeout_s):
         os.unlink(fn)
 
 
-def discharge(ob, timeout_s=10, second_solver=False):
+def discharge(ob, timeout_s=10, second_solver=False, patient=True):
+    """patient=False: the obligation is a recorded known finding (it is expected to fail and is reported as such whatever the portfolio
+    says): the expensive last-resort stages, which only exist to keep a provable obligation provable on a loaded machine, are skipped"""
     """sets ob.status / backend / time / model"""
     t0 = time.time()
     del STAGES[:]
@@ -239,7 +241,7 @@ def discharge(ob, timeout_s=10, second_solver=False):
             smt2 = solver.to_smt2()
             # generous budgets: these stages are only reached by the few obligations the in-process attempts leave open, and an
             # obligation of the unchanged tree that is decided here must stay decided on a slower machine
-            for tool, ext_t in (("cvc5", max(5, timeout_s // 2)), ("z3-4.8", max(20, timeout_s))):
+            for tool, ext_t in (("cvc5", max(5, timeout_s // 2)), ("z3-4.8", max(20, timeout_s) if patient else 5)):
                 r = external(smt2, tool, ext_t)
                 if r == UNSAT:
                     st, model = UNSAT, None
@@ -250,20 +252,20 @@ def discharge(ob, timeout_s=10, second_solver=False):
                     ob.backend = tool + " (sat); witness from z3 ground instantiation"
                     break
             else:
-                if has_q:
+                if has_q and patient:
                     # last resort before giving up: the seeded attempts once more with a generous budget
                     # (all configurations of the short attempts again - which of them is the lucky one differs between obligations -
-                    # with ten times their budget, so that a machine that delivers half the work per CPU second under load, or less,
+                    # with four times their budget, so that a machine that delivers half the work per CPU second under load, or less,
                     # still reaches the same verdict; then two more seeds)
                     for seed, mbqi in ((0, True), (1, True), (2, False), (3, True), (4, False), (5, True), (7, False)):
-                        st, model, _s = _check(query, 8000, seed=seed, mbqi=mbqi)
+                        st, model, _s = _check(query, 5000, seed=seed, mbqi=mbqi)
                         if st == UNSAT:
                             ob.backend = "z3-5.1(py) (long attempt)"
                             break
                         if st == SAT:
                             ob.backend = "z3-5.1(py) (model of the quantified query)"
                             break
-                if st == UNKNOWN and has_q and external(smt2, "z3-4.8", 60) == UNSAT:
+                if st == UNKNOWN and has_q and patient and external(smt2, "z3-4.8", 40) == UNSAT:
                     st, model = UNSAT, None
                     ob.backend = "z3-4.8 (long attempt)"
                 if st != UNKNOWN:
